@@ -782,6 +782,8 @@ class OutputSchemaBuilder(
                         all_interfaces.update(flattened.interfaces)
                     elif isinstance(flattened, graphql.GraphQLInterfaceType):
                         all_interfaces.add(flattened)
+                        # interfaces of an implemented interface must be implemented too
+                        all_interfaces.update(flattened.interfaces)
                 return sorted(all_interfaces, key=lambda i: i.name)
 
         def factory(
